@@ -3,8 +3,11 @@ package props
 import (
 	"bytes"
 	"fmt"
+	"io/ioutil"
 	"math"
 	"math/rand"
+	"net/http"
+	"net/http/httptest"
 	"os"
 	"path/filepath"
 	"sort"
@@ -37,7 +40,7 @@ func (c08) Meta() fw.Meta {
 			"CLI commands read the wall clock; the oracle uses the now: value the command printed (per file), so the comparison is exact at that instant",
 			"value equality is numeric (+0 == -0), as the command's own difference test; NaN equals NaN",
 		},
-		Obligations: []string{"slow_first_file_runs", "copies_ok", "slots_compared", "slots_copied", "coarser_matched_finer_differed", "dest_absent_created", "dest_absent_nothing_to_copy", "narrow_window", "window_beyond_finest_retention", "single_archive_selection", "glob_mode_3plus_files", "copy_nan_mode", "layout_mismatch_rejected", "repeat_idempotent", "diff_after_copy_clean", "source_unchanged_checks", "symlinked_source_in_glob", "unclean_base_spelling", "glob_failing_file_reported"},
+		Obligations: []string{"slow_first_file_runs", "glob_copies_with_a_listing_that_breaks_off", "requested_header_differs_from_source_header", "copies_ok", "slots_compared", "slots_copied", "coarser_matched_finer_differed", "dest_absent_created", "dest_absent_nothing_to_copy", "narrow_window", "window_beyond_finest_retention", "single_archive_selection", "glob_mode_3plus_files", "copy_nan_mode", "layout_mismatch_rejected", "repeat_idempotent", "diff_after_copy_clean", "source_unchanged_checks", "symlinked_source_in_glob", "unclean_base_spelling", "glob_failing_file_reported"},
 		Workers:     12,
 	}
 }
@@ -131,6 +134,17 @@ func (c08) Run(c *fw.Ctx) {
 		sc.From = 1
 	}
 	// ---- fixtures
+	// when the destination is absent, the REQUESTED aggregation method and xFilesFactor (the command's flags) may differ
+	// from those in the source file's own header: the created destination carries the requested ones
+	srcL := l
+	if sc.DestState == "absent" && c.Index%2 == 0 {
+		srcL.Method = 1 + (l.Method+r.Intn(5))%6
+		srcL.Xff = []float32{0, 0.25, 1}[r.Intn(3)]
+		if srcL.Xff == l.Xff {
+			srcL.Xff = 0.75
+		}
+		c.Count("requested_header_differs_from_source_header", 1)
+	}
 	srcContents := map[string]slotContent{}
 	for i := 0; i < nfiles; i++ {
 		rel := fmt.Sprintf("m%d.wsp", i)
@@ -146,7 +160,7 @@ func (c08) Run(c *fw.Ctx) {
 		if sc.Glob && i == 1 {
 			// a matched source that is a symbolic link to a whisper file stored elsewhere
 			real := filepath.Join(dir, "real", fmt.Sprintf("r%d.wsp", i))
-			writeFixture(real, l, cont, now)
+			writeFixture(real, srcL, cont, now)
 			mustMkdir(filepath.Dir(filepath.Join(srcBase, rel)))
 			os.Remove(filepath.Join(srcBase, rel))
 			if err := os.Symlink(real, filepath.Join(srcBase, rel)); err != nil {
@@ -154,7 +168,7 @@ func (c08) Run(c *fw.Ctx) {
 			}
 			c.Count("symlinked_source_in_glob", 1)
 		} else {
-			writeFixture(filepath.Join(srcBase, rel), l, cont, now)
+			writeFixture(filepath.Join(srcBase, rel), srcL, cont, now)
 		}
 		dp := filepath.Join(destBase, rel)
 		switch sc.DestState {
@@ -304,6 +318,76 @@ func (c08) Run(c *fw.Ctx) {
 				c.Count("glob_failing_file_reported", 1)
 				c.Nontrivial("glob-mismatch", fw.JSON(sc))
 				return
+			}
+		}
+	}
+	// ---- glob copy from a server whose file listing breaks off (the peer dies after sending the first half of it,
+	// complete lines only): either the command fails, or every matched file was copied
+	if sc.Glob && c.Index%10 == 7 {
+		if u, served, ok := workerServer(c); ok {
+			name := fmt.Sprintf("c08-%d", c.Index)
+			link := filepath.Join(served, name)
+			lsrc := filepath.Join(dir, "src-listing")
+			mustMkdir(lsrc)
+			os.Symlink(lsrc, link)
+			defer os.Remove(link)
+			for k := 0; k < 6; k++ {
+				writeFixture(filepath.Join(lsrc, fmt.Sprintf("x%d.wsp", k)), srcL, genContent(r, l, now, 0.5), now)
+			}
+			proxy := httptest.NewServer(http.HandlerFunc(func(w http.ResponseWriter, req *http.Request) {
+				resp, err := http.Get(u + req.URL.RequestURI())
+				if err != nil {
+					http.Error(w, err.Error(), http.StatusBadGateway)
+					return
+				}
+				body, _ := ioutil.ReadAll(resp.Body)
+				resp.Body.Close()
+				if req.URL.Path == "/files" && resp.StatusCode == 200 {
+					lines := bytes.SplitAfter(body, []byte("\n"))
+					var half []byte
+					for _, ln := range lines[:len(lines)/2] {
+						half = append(half, ln...)
+					}
+					if hj, ok := w.(http.Hijacker); ok {
+						if conn, buf, err := hj.Hijack(); err == nil {
+							fmt.Fprintf(buf, "HTTP/1.1 200 OK\r\nContent-Type: text/plain; charset=utf-8\r\nContent-Length: %d\r\n\r\n", len(body))
+							buf.Write(half)
+							buf.Flush()
+							conn.Close()
+							return
+						}
+					}
+				}
+				for k, v := range resp.Header {
+					w.Header()[k] = v
+				}
+				w.WriteHeader(resp.StatusCode)
+				w.Write(body)
+			}))
+			bdest := filepath.Join(dir, "dest-broken-listing")
+			mustMkdir(bdest)
+			args := []string{"copy", "-src-base", proxy.URL, "-src", name + "/*.wsp", "-dest-base", bdest,
+				"-agg-method", model.MethodNames[l.Method], "-x-files-factor", strconv.FormatFloat(float64(l.Xff), 'g', -1, 32), "-retentions", l.RetentionString()}
+			res := runCLI(c, args...)
+			proxy.Close()
+			c.Count("glob_copies_with_a_listing_that_breaks_off", 1)
+			if cliPanicked(res) {
+				c.Violationf("panic", res.brief(), "copy panicked")
+				return
+			}
+			if res.Exit == 0 {
+				matched, _ := filepath.Glob(filepath.Join(lsrc, "*.wsp"))
+				missing := []string{}
+				for _, m := range matched {
+					if !fileExists(filepath.Join(bdest, name, filepath.Base(m))) {
+						missing = append(missing, filepath.Base(m))
+					}
+				}
+				if len(missing) > 0 {
+					c.Violationf("glob-copy-incomplete-listing-taken-as-complete", fw.J{"run": res.brief(), "not_copied": missing, "matched": len(matched)},
+						"the server's file listing broke off half way; copy exited 0 and left %d of %d matched files uncopied", len(missing), len(matched))
+					return
+				}
 			}
 		}
 	}
